@@ -4,6 +4,7 @@ package main
 // configurations enumerated by Cli.tla.
 
 import (
+	"unicode/utf16"
 	"bytes"
 	"context"
 	"encoding/json"
@@ -120,10 +121,48 @@ func runBin(bin string, args []string, stdin string) (exit int, stdout, stderr s
 	return exit, so.String(), stderr, crashed
 }
 
+// altSpelling: when set, JSON inputs are written in another legal spelling of the same document (what other producers emit):
+// "/" as "\/", every non-ASCII character as \uXXXX (surrogate pairs beyond the BMP), blanks between the tokens
+var altSpelling bool
+
+func altJSON(b []byte) []byte {
+	if !altSpelling {
+		return b
+	}
+	var sb strings.Builder
+	inStr, esc := false, false
+	for _, r := range string(b) {
+		switch {
+		case esc:
+			esc = false
+			sb.WriteRune(r)
+		case inStr && r == '\\':
+			esc = true
+			sb.WriteRune(r)
+		case r == '"':
+			inStr = !inStr
+			sb.WriteRune(r)
+		case inStr && r == '/':
+			sb.WriteString("\\/")
+		case inStr && r > 0xFFFF:
+			r1, r2 := utf16.EncodeRune(r)
+			fmt.Fprintf(&sb, "\\u%04x\\u%04x", r1, r2)
+		case inStr && r > 0x7e:
+			fmt.Fprintf(&sb, "\\u%04x", r)
+		case !inStr && (r == ':' || r == ','):
+			sb.WriteRune(r)
+			sb.WriteString(" ")
+		default:
+			sb.WriteRune(r)
+		}
+	}
+	return []byte(sb.String())
+}
+
 func writeJSONFile(dir, name string, v any) string {
 	p := filepath.Join(dir, name)
 	b, _ := json.Marshal(v)
-	os.WriteFile(p, b, 0o644)
+	os.WriteFile(p, altJSON(b), 0o644)
 	return p
 }
 
@@ -189,6 +228,16 @@ func cmdCliCheck(args []string) {
 			// a gated feature used WITHOUT its flag: both entry points must refuse it (a flag is off unless it is given)
 			c.FlagOvd = false
 		}
+		altSpelling = r.Intn(3) == 0
+		if altSpelling && r.Intn(2) == 0 {
+			// a string variable with characters beyond ASCII and beyond the BMP, written to the metadata
+			c.Text = "vars {\n string $memo\n}\n" + c.Text + "\nset_tx_meta(\"memo\", $memo)"
+			if strings.Contains(c.Text[20:], "vars {") {
+				c.Text = strings.Replace(c.Text, "vars {\n string $memo\n}\nvars {", "vars {\n string $memo\n", 1)
+			}
+			c.RawVars = copyVars(c.RawVars)
+			c.RawVars["memo"] = "to the moon \U0001F680 caf\u00e9 a/b"
+		}
 		real := cliInput{script: c.Text, vars: c.RawVars, bal: bigBalances(c, r), meta: c.Meta}
 		if r.Intn(5) == 0 {
 			real.vars = copyVars(real.vars)
@@ -246,7 +295,7 @@ func cmdCliCheck(args []string) {
 		}
 		if o, used := obj(func(f cliField) string { return f.Raw }); used {
 			b, _ := json.Marshal(o)
-			cliArgs = append(cliArgs, "--raw", string(b))
+			cliArgs = append(cliArgs, "--raw", string(altJSON(b)))
 		}
 		for _, f := range cfg {
 			if f.Opt == "none" {
@@ -272,7 +321,7 @@ func cmdCliCheck(args []string) {
 		stdin := ""
 		if o, used := obj(func(f cliField) string { return f.Stdin }); used {
 			b, _ := json.Marshal(o)
-			stdin = string(b)
+			stdin = string(altJSON(b))
 			cliArgs = append(cliArgs, "--stdin")
 		}
 		libst, libjson, libmsg := libRun(eff, c.FlagOvd)
